@@ -10,7 +10,7 @@ from ..space import ops
 PID = "C13"
 LEVEL = "exploration"
 RULE = ("documents of two operations: every ordered pair of operation shapes {plain, 3 optional params, multi-content (overloads), streaming bytes, SSE, "
-        "long wrapped signature, body+params} x every tag pattern {none, same tag, different tags, multi-tag, case variants, punctuation variants}; "
+        "long wrapped signature, body+params, json primary + streaming secondary status, streaming primary + json secondary} x every tag pattern {none, same tag, different tags, multi-tag, case variants, punctuation variants}; "
         "the generated package is imported in the runtime-only interpreter and client class / Protocol / mock are compared by introspection "
         "(inspect.signature, coroutine vs async-iterator nature, isinstance against the runtime_checkable Protocol, NotImplementedError from mocks, "
         "MockAPIClient vs APIClient tag properties). non-trivial = distinct (shape pair, tag pattern) documents")
@@ -18,7 +18,7 @@ ASSUMPTIONS = [
     "a Protocol member written as a plain `def` annotated AsyncIterator[...] counts as async-iterator nature (the correct typing spelling)",
     "annotations are compared as the strings found in __annotations__ (the three artefacts are rendered from the same text)",
 ]
-BOUND = {"quick": "7x7 shape pairs x 9 tag patterns = 441 documents", "thorough": "same + 3-operation documents over the 4 overload/stream shapes (576 more)"}
+BOUND = {"quick": "9x9 shape pairs x 9 tag patterns = 729 documents", "thorough": "same + 3-operation documents over the 4 overload/stream shapes (576 more)"}
 CHUNK = 4
 
 P = ops.param
@@ -33,6 +33,8 @@ SHAPES = {
         P("aVeryLongPathParameterName", "path", True, "integer"), P("anotherQuiteLongQueryParameter", "query", True, "string"),
         P("optionalQueryParameterNumberOne", "query", False, "arr-string"), P("X-Optional-Header-Parameter", "header", False, "string"),
         P("sortOrder", "query", False, "str-enum")], {"kind": "json-ref", "required": True}, {"200": "json-model", "404": "none"}),
+    "json+stream206": ops.op("get", "/js", [], None, {"200": "json-model", "206": "octet"}),
+    "sse+json201": ops.op("get", "/sj", [], None, {"200": "event-stream", "201": "json-model"}),
     "bodyparams": ops.op("post", "/bp/{id}", [P("id", "path", True, "string"), P("q", "query", False, "date")],
                          {"kind": "json-inline", "required": False}, {"201": "json-model", "204": "none"}),
 }
